@@ -68,7 +68,19 @@ func optTimeW(t *time.Time) W {
 	return WInt(t.Unix())
 }
 
-func dlgFieldsW(t *delegation.Token) W {
+// the other whole second an instant between two seconds may legitimately be recorded as
+func optTimeWr(t *time.Time, round bool) W {
+	if t == nil {
+		return WNull
+	}
+	if round {
+		return WInt(t.Round(time.Second).Unix())
+	}
+	return WInt(t.Unix())
+}
+
+func dlgFieldsW(t *delegation.Token, round ...bool) W {
+	rd := len(round) > 0 && round[0]
 	pol, err := t.Policy().ToIPLD()
 	polW := WNull
 	if err == nil {
@@ -76,10 +88,11 @@ func dlgFieldsW(t *delegation.Token) W {
 	}
 	return WMap(KV{"iss", WStr(t.Issuer().String())}, KV{"aud", WStr(t.Audience().String())}, KV{"sub", optDidW(t.Subject())},
 		KV{"cmd", WStr(t.Command().String())}, KV{"pol", polW}, KV{"nonce", WBytes(t.Nonce())},
-		KV{"meta", sortedKVs(t.Meta().Iter())}, KV{"nbf", optTimeW(t.NotBefore())}, KV{"exp", optTimeW(t.Expiration())})
+		KV{"meta", sortedKVs(t.Meta().Iter())}, KV{"nbf", optTimeWr(t.NotBefore(), rd)}, KV{"exp", optTimeWr(t.Expiration(), rd)})
 }
 
-func invFieldsW(t *invocation.Token) W {
+func invFieldsW(t *invocation.Token, round ...bool) W {
+	rd := len(round) > 0 && round[0]
 	var prf []W
 	for _, c := range t.Proof() {
 		prf = append(prf, WLink(c.Bytes()))
@@ -90,6 +103,6 @@ func invFieldsW(t *invocation.Token) W {
 	}
 	return WMap(KV{"iss", WStr(t.Issuer().String())}, KV{"sub", WStr(t.Subject().String())}, KV{"aud", optDidW(t.Audience())},
 		KV{"cmd", WStr(t.Command().String())}, KV{"args", sortedKVs(t.Arguments().Iter())}, KV{"prf", WList(prf...)},
-		KV{"meta", sortedKVs(t.Meta().Iter())}, KV{"nonce", WBytes(t.Nonce())}, KV{"exp", optTimeW(t.Expiration())},
-		KV{"iat", optTimeW(t.InvokedAt())}, KV{"cause", cause})
+		KV{"meta", sortedKVs(t.Meta().Iter())}, KV{"nonce", WBytes(t.Nonce())}, KV{"exp", optTimeWr(t.Expiration(), rd)},
+		KV{"iat", optTimeWr(t.InvokedAt(), rd)}, KV{"cause", cause})
 }
